@@ -31,7 +31,7 @@ def _fixture_init(name: str) -> bytes:
     return data[:end]
 
 
-def patched_init(kind='video', encrypted=False, timescale=1000, track_id=1, iv_size=8) -> bytes:
+def patched_init(kind='video', encrypted=False, timescale=1000, track_id=1, iv_size=8, trex_duration=None) -> bytes:
     src = {('video', False): 'bbb_v7.mp4', ('video', True): 'bbb_v7_enc.mp4',
            ('audio', False): 'bbb_a1.mp4', ('audio', True): 'bbb_a1_enc.mp4'}[(kind, encrypted)]
     data = bytearray(_fixture_init(src))
@@ -45,6 +45,9 @@ def patched_init(kind='video', encrypted=False, timescale=1000, track_id=1, iv_s
     struct.pack_into('>I', data, tkhd.start + 20, track_id)
     trex = moov.find('mvex', 'trex')
     struct.pack_into('>I', data, trex.start + 12, track_id)
+    if trex_duration is not None:
+        # trex: header 8, version/flags 4, track_ID 4, default_sample_description_index 4, default_sample_duration 4
+        struct.pack_into('>I', data, trex.start + 20, trex_duration)
     if encrypted:
         for b in moov.walk():
             if b.type == b'tenc':
@@ -62,7 +65,7 @@ def payload_bytes(file_id: int, seg: int, n: int) -> bytes:
 def make_fragment(seq, track_id, decode_time, sample_durs, sample_sizes, payload, *, file_offset,
                   tfdt='v1', base='moof', styp=False, sidx=False, timescale=1000,
                   encrypted=False, iv_size=8, subsamples=False, emsg=None, per_sample_saiz=False,
-                  moof_pssh=None):
+                  moof_pssh=None, dur_from='trun'):
     """-> bytes of [styp][sidx][emsg] moof mdat, laid out for absolute position file_offset."""
     pre = b''
     if styp:
@@ -95,18 +98,26 @@ def make_fragment(seq, track_id, decode_time, sample_durs, sample_sizes, payload
             saiz = fullbox(b'saiz', 0, 0, struct.pack('>BI', sizes[0] if sizes else 0, n))
         saio_placeholder = fullbox(b'saio', 0, 0, struct.pack('>II', 1, 0))
         enc_boxes = (saiz, saio_placeholder, senc)
-    trun_flags = 0x1 | 0x100 | 0x200
-    trun_body = struct.pack('>Ii', n, 0) + b''.join(struct.pack('>II', d, s)
-                                                     for d, s in zip(sample_durs, sample_sizes))
+    if dur_from == 'trun':
+        trun_flags = 0x1 | 0x100 | 0x200
+        trun_body = struct.pack('>Ii', n, 0) + b''.join(struct.pack('>II', d, s)
+                                                         for d, s in zip(sample_durs, sample_sizes))
+    else:
+        # sample durations come from tfhd.default_sample_duration or from trex: all samples are equally long
+        assert len(set(sample_durs)) == 1, sample_durs
+        trun_flags = 0x1 | 0x200
+        trun_body = struct.pack('>Ii', n, 0) + b''.join(struct.pack('>I', s) for s in sample_sizes)
     trun = fullbox(b'trun', 0, trun_flags, trun_body)
 
     def build(base_data_offset, data_offset, saio_off):
+        dflt = struct.pack('>I', sample_durs[0]) if dur_from == 'tfhd' else b''
+        dfl = 0x000008 if dur_from == 'tfhd' else 0
         if base == 'moof':
-            tfhd = fullbox(b'tfhd', 0, 0x020000, struct.pack('>I', track_id))
+            tfhd = fullbox(b'tfhd', 0, 0x020000 | dfl, struct.pack('>I', track_id) + dflt)
         elif base == 'explicit':
-            tfhd = fullbox(b'tfhd', 0, 0x000001, struct.pack('>IQ', track_id, base_data_offset))
+            tfhd = fullbox(b'tfhd', 0, 0x000001 | dfl, struct.pack('>IQ', track_id, base_data_offset) + dflt)
         else:   # 'none': neither flag; base defaults to the moof start for the first traf
-            tfhd = fullbox(b'tfhd', 0, 0, struct.pack('>I', track_id))
+            tfhd = fullbox(b'tfhd', 0, dfl, struct.pack('>I', track_id) + dflt)
         tr = fullbox(b'trun', 0, trun_flags, struct.pack('>Ii', n, data_offset) + trun_body[8:])
         parts = tfhd + tfdt_box
         senc_pos_in_traf = None
@@ -145,12 +156,12 @@ def make_fragment(seq, track_id, decode_time, sample_durs, sample_sizes, payload
 def make_file(*, kind='video', timescale=1000, durations=(2000, 3000, 2500, 1500, 4000), start_time=0,
               tfdt='v1', styp=False, sidx=False, base='moof', samples_per_seg=2, encrypted=False, iv_size=8,
               subsamples=False, file_id=1, track_id=1, start_number=1, sample_size=40,
-              per_sample_saiz=False, extra_kids=()) -> bytes:
+              per_sample_saiz=False, extra_kids=(), dur_from='trun', trex_duration=None) -> bytes:
     moof_pssh = None
     if extra_kids:
         moof_pssh = fullbox(b'pssh', 1, 0, COMMON_SYSTEM_ID + struct.pack('>I', len(extra_kids)) +
                             b''.join(extra_kids) + struct.pack('>I', 0))
-    init = patched_init(kind, encrypted, timescale, track_id, iv_size)
+    init = patched_init(kind, encrypted, timescale, track_id, iv_size, trex_duration)
     out = bytearray(init)
     t = start_time
     for i, d in enumerate(durations):
@@ -162,7 +173,7 @@ def make_file(*, kind='video', timescale=1000, durations=(2000, 3000, 2500, 1500
         frag = make_fragment(start_number + i, track_id, t, durs, sizes, payload, file_offset=len(out),
                              tfdt=tfdt, base=base, styp=styp, sidx=sidx, timescale=timescale,
                              encrypted=encrypted, iv_size=iv_size, subsamples=subsamples,
-                             per_sample_saiz=per_sample_saiz, moof_pssh=moof_pssh if i == 0 else None)
+                             per_sample_saiz=per_sample_saiz, moof_pssh=moof_pssh if i == 0 else None, dur_from=dur_from)
         out += frag
         t += d
     return bytes(out)
@@ -213,6 +224,14 @@ RECIPES = {
         'synenc_a1': dict(kind='audio', timescale=48000, track_id=2, durations=(96000, 144000, 96000), file_id=8),
         'synenc_a1_enc': dict(kind='audio', timescale=48000, track_id=2, durations=(96000, 144000, 96000),
                               file_id=8, encrypted=True, iv_size=8, subsamples=False),
+    },
+    # sample durations that are not in trun: video takes them from tfhd.default_sample_duration (trex says something
+    # else), audio from trex.default_sample_duration
+    'syndef': {
+        'syndef_v1': dict(kind='video', timescale=1000, durations=(2000, 2000, 2000, 2000), file_id=15, dur_from='tfhd',
+                          trex_duration=40),
+        'syndef_a1': dict(kind='audio', timescale=48000, track_id=2, durations=(96000, 96000, 96000, 96000), file_id=16,
+                          samples_per_seg=4, dur_from='trex', trex_duration=24000),
     },
     # a track with two key ids: the tenc default and a second one named by a pssh box in the first fragment
     'synmk': {
